@@ -158,7 +158,61 @@ def _mk_joint(kind, R):
     return ob
 
 
+def _mk_hetero(kind, what):
+    """heteroscedastic noise with exp / cosh-1 link: E[y] = M mu + b, Cov[y] = AA' + A_k diag(E[link(h)]) A_k' + M Sx M',
+    Cov[y,x] = M Sx, with E[exp(h)] = exp(w'mu + w0 + w'Sx w / 2) (Gaussian moment generating function, axiom G1)"""
+    from .C17 import gen_hetero
+
+    def ob(w):
+        xp = w.xp
+        obj, par = gen_hetero(w, kind, "wide")
+        p_x, px = SP.gen_pdf(w, "x", 1, "Dx")
+        mu, Sx = px["mu"], px["S"]
+        wm = xp.einsum("ki,ri->rk", par["wv"], mu)[0] + par["w0"]                  # [Dk]
+        wSw = xp.einsum("ki,rij,kj->rk", par["wv"], Sx, par["wv"])[0]
+        if kind == "exp":
+            ED = xp.exp(wm + 0.5 * wSw)
+        else:
+            ED = 0.5 * xp.exp(wm + 0.5 * wSw) + 0.5 * xp.exp(-wm + 0.5 * wSw) - 1.0
+        M, b, Ak, A = par["M"][0], par["b"][0], par["Ak"][0], par["A"][0]
+        mu_s = xp.einsum("ij,rj->ri", M, mu) + b[None]
+        Sy_s = (xp.einsum("ia,ja->ij", A, A) + xp.einsum("ik,k,jk->ij", Ak, ED, Ak))[None] + xp.einsum("ij,rjk,lk->ril", M, Sx, M)
+        cov_yx = xp.einsum("ij,rjk->rik", M, Sx)
+        if what == "moments":
+            w.equal("integrate_noise_diagonal=E[link(h)]", obj._integrate_noise_diagonal(p_x), ED)
+            mu_y, Sigma_y = obj.get_expected_moments(p_x)                    # REAL
+            w.equal("get_expected_moments/mu", mu_y, mu_s)
+            w.equal("get_expected_moments/Sigma", Sigma_y, Sy_s)
+            w.equal("get_expected_cross_terms", obj.get_expected_cross_terms(p_x), cov_yx + xp.einsum("ri,rj->rij", mu_s, mu))
+            p_y = obj.affine_marginal_transformation(p_x)                    # REAL
+            w.equal("marginal/mu", p_y.mu, mu_s)
+            w.equal("marginal/Sigma", p_y.Sigma, Sy_s)
+            wf_measure(w, "marginal", p_y, is_pdf=True)
+        elif what == "conditional":
+            Ly = w.inv(Sy_s)
+            post = obj.affine_conditional_transformation(p_x)               # REAL
+            M_s = xp.einsum("raj,rab->rjb", cov_yx, Ly)
+            w.equal("conditional/M", post.M, M_s)
+            w.equal("conditional/b", post.b, mu - xp.einsum("rjb,rb->rj", M_s, mu_s))
+            w.equal("conditional/Sigma", post.Sigma, Sx - xp.einsum("rjb,rbi->rji", M_s, cov_yx))
+            wf_conditional(w, "conditional", post)
+        else:
+            joint = obj.affine_joint_transformation(p_x)                     # REAL
+            w.equal("joint/mu", joint.mu, xp.concatenate([mu, mu_s], axis=1))
+            S_xy = xp.concatenate([xp.concatenate([Sx, xp.swapaxes(cov_yx, 1, 2)], axis=2),
+                                   xp.concatenate([cov_yx, Sy_s], axis=2)], axis=1)
+            w.equal("joint/Sigma", joint.Sigma, S_xy)
+    return ob
+
+
 def _register():
+    for kind, cls in (("exp", "HeteroscedasticExpConditional"), ("coshm1", "HeteroscedasticCoshM1Conditional")):
+        F = [f"approximate_conditional.{cls}._integrate_noise_diagonal"] +             [f"approximate_conditional.HeteroscedasticConditional.{m}" for m in ("integrate_Sigma_x", "get_expected_moments", "get_expected_cross_terms",
+             "affine_joint_transformation", "affine_conditional_transformation", "affine_marginal_transformation")]
+        for what in ("moments", "conditional", "joint"):
+            REG.ob(f"{cls}/{what}", sorts=["Dy", "Dx", "Dk", "Dr"], funcs=F, axioms=AX,
+                   order={("Dy", "Dk+Dr"): False, ("Dk", "Dk+Dr"): False},
+                   sizes=[dict(Dy=2, Dx=3, Dk=2, Dr=2), dict(Dy=3, Dx=2, Dk=1, Dr=3)])(_mk_hetero(kind, what))
     for kind, cls in (("rbf", "LRBFGaussianConditional"), ("lsem", "LSEMGaussianConditional")):
         F = [f"approximate_conditional.{cls}.{m}" for m in ("__post_init__", "update_phi")] + \
             [f"approximate_conditional.LConjugateFactorMGaussianConditional.{m}" for m in
